@@ -242,3 +242,97 @@ Proof.
     rewrite size24 by assumption. rewrite Bool.andb_false_r. rewrite <- Hn. cbn [bind is11] in *. rewrite Hd. reflexivity.
   - unfold lenN. rewrite (v_list_length o Hw). lia.
 Qed.
+
+Lemma sparse11_inv s n ts : sparse11 s = Some (n, ts) ->
+  wfb s /\ exists l0 l1 l2 body, s = 17 :: l0 :: l1 :: l2 :: body /\
+    ((l0 + 256 * l1 + 65536 * l2 <> 0 /\ n = l0 + 256 * l1 + 65536 * l2 /\ sbody V11 body n = Some ts) \/
+     (l0 + 256 * l1 + 65536 * l2 = 0 /\ exists m0 m1 m2 m3 body', body = m0 :: m1 :: m2 :: m3 :: body' /\
+        n = m0 + 256 * m1 + 65536 * m2 + 16777216 * m3 /\ sbody V11 body' n = Some ts)).
+Proof.
+  intros H. unfold sparse11 in H. destruct (wfbb s) eqn:Ew; cbn [negb] in H; [|discriminate H].
+  apply wfbb_spec in Ew. split; [exact Ew|].
+  destruct s as [|t s]; red_disc H.
+  destruct t as [|p]; red_disc H.
+  destruct p as [p|p|]; red_disc H. destruct p as [p|p|]; red_disc H.
+  destruct p as [p|p|]; red_disc H. destruct p as [p|p|]; red_disc H.
+  destruct p as [p|p|]; red_disc H.
+  destruct s as [|l0 s]; red_disc H. destruct s as [|l1 s]; red_disc H. destruct s as [|l2 body]; red_disc H.
+  exists l0, l1, l2, body. split; [reflexivity|].
+  destruct (N.eqb_spec (l0 + 256 * l1 + 65536 * l2) 0) as [E|E].
+  - right. split; [exact E|].
+    destruct body as [|m0 body]; red_disc H. destruct body as [|m1 body]; red_disc H.
+    destruct body as [|m2 body]; red_disc H. destruct body as [|m3 body']; red_disc H.
+    destruct (sbody V11 body' (m0 + 256 * m1 + 65536 * m2 + 16777216 * m3)) as [ts'|] eqn:Eb; [|discriminate H].
+    inversion H; subst n ts. exists m0, m1, m2, m3, body'. repeat split. exact Eb.
+  - left. split; [exact E|].
+    destruct (sbody V11 body (l0 + 256 * l1 + 65536 * l2)) as [ts'|] eqn:Eb; [|discriminate H].
+    inversion H; subst n ts. split; [reflexivity | exact Eb].
+Qed.
+
+Theorem decode_sparse11 m s n ts : sparse11 s = Some (n, ts) ->
+  exists x, expand ts = Some x /\ decompress_lz m s = Ok x /\ lenN x = n.
+Proof.
+  intros H. destruct (sparse11_inv s n ts H) as (Ew & l0 & l1 & l2 & body & -> & Hcase).
+  apply wfb_cons_inv in Ew. destruct Ew as [_ Ew].
+  apply wfb_cons_inv in Ew. destruct Ew as [H0 Ew].
+  apply wfb_cons_inv in Ew. destruct Ew as [H1 Ew].
+  apply wfb_cons_inv in Ew. destruct Ew as [H2 Ew].
+  unfold decompress_lz. cbn [next bind]. change (17 =? 16) with false. change (17 =? 17) with true. cbv beta iota. cbn [bind next].
+  rewrite size24 by assumption.
+  destruct Hcase as [(Hnz & Hn & Eb) | (Hz & m0 & m1 & m2 & m3 & body' & -> & Hn & Eb)].
+  - destruct (N.eqb_spec (l0 + 256 * l1 + 65536 * l2) 0) as [E|_]; [congruence|]. cbn [andb bind].
+    destruct (sbody_decode m V11 body _ ts Ew Eb) as (o & Hd & Hw & Hl & Hex).
+    exists (v_list o). split; [exact Hex|]. split.
+    + rewrite <- Hn. cbn [is11] in Hd. rewrite Hd. reflexivity.
+    + unfold lenN. rewrite (v_list_length o Hw). lia.
+  - rewrite Hz. cbn [N.eqb andb bind next].
+    apply wfb_cons_inv in Ew. destruct Ew as [G0 Ew].
+    apply wfb_cons_inv in Ew. destruct Ew as [G1 Ew].
+    apply wfb_cons_inv in Ew. destruct Ew as [G2 Ew].
+    apply wfb_cons_inv in Ew. destruct Ew as [G3 Ew].
+    rewrite size32 by assumption.
+    destruct (sbody_decode m V11 body' _ ts Ew Eb) as (o & Hd & Hw & Hl & Hex).
+    exists (v_list o). split; [exact Hex|]. split.
+    + rewrite <- Hn. cbn [is11] in Hd. rewrite Hd. reflexivity.
+    + unfold lenN. rewrite (v_list_length o Hw). lia.
+Qed.
+
+(* ---------------------------------------------------------------- the entry points *)
+Lemma lenN_ge4 a b c d r : (lenN (a :: b :: c :: d :: r) <? 4) = false.
+Proof. unfold lenN. cbn [length]. destruct (N.ltb_spec (N.of_nat (S (S (S (S (length r)))))) 4); [lia | reflexivity]. Qed.
+
+(* the 0x13 wrapper is stripped: four bytes, the three after the type byte are not looked at *)
+Theorem lz13_wrapped m a b c s : lz13_decompress m (0x13 :: a :: b :: c :: s) = decompress_lz m s.
+Proof. unfold lz13_decompress. rewrite lenN_ge4. reflexivity. Qed.
+
+(* a bare LZ10 / LZ11 stream is passed through *)
+Theorem lz13_bare m t a b c s : t <> 0 -> t <> 0x13 ->
+  lz13_decompress m (t :: a :: b :: c :: s) = decompress_lz m (t :: a :: b :: c :: s).
+Proof.
+  intros H0 H13. unfold lz13_decompress. rewrite lenN_ge4.
+  destruct (N.eqb_spec t 0) as [E|_]; [congruence|]. destruct (N.eqb_spec t 19) as [E|_]; [congruence|]. reflexivity.
+Qed.
+
+(* the type-0 stored form *)
+Theorem lz13_stored m a b c p : lz13_decompress m (0 :: a :: b :: c :: p) = Ok p.
+Proof. unfold lz13_decompress. rewrite lenN_ge4. reflexivity. Qed.
+
+(* fewer than four bytes: an error (the repair of F13) *)
+Theorem lz13_short m s : (length s < 4)%nat -> lz13_decompress m s = Err EInvalidInput.
+Proof.
+  intros H. unfold lz13_decompress. unfold lenN.
+  destruct (N.ltb_spec (N.of_nat (length s)) 4); [reflexivity | lia].
+Qed.
+
+Theorem lz_short m s : (length s < 4)%nat -> decompress_lz m s = Err EInvalidInput.
+Proof.
+  intros H. unfold decompress_lz.
+  destruct s as [|t [|a [|b [|c r]]]]; cbn [length] in H; try lia; cbn [next bind]; try reflexivity;
+    (destruct (t =? 16); [|destruct (t =? 17)]; reflexivity).
+Qed.
+
+Theorem lz_unknown_type m t s : t <> 0x10 -> t <> 0x11 -> decompress_lz m (t :: s) = Err EInvalidInput.
+Proof.
+  intros H0 H1. unfold decompress_lz. cbn [next bind].
+  destruct (N.eqb_spec t 16) as [E|_]; [congruence|]. destruct (N.eqb_spec t 17) as [E|_]; [congruence|]. reflexivity.
+Qed.
